@@ -57,6 +57,24 @@ class RecordingDeque(collections.deque):
         self.appended.append(item)
         super().append(item)
 
+    # a command put in FRONT of commands that other threads queued earlier overtakes them; the only legitimate front insertion
+    # is the pump's own (the follow-up jobs of the line it is handling)
+    def appendleft(self, item):
+        self._note_front()
+        super().appendleft(item)
+
+    def extendleft(self, items):
+        items = list(items)
+        if items:
+            self._note_front()
+        super().extendleft(items)
+
+    def _note_front(self):
+        sim = kernel.CURRENT
+        role = sim.current.role if sim is not None and sim.current is not None else "?"
+        if role != "_poll_queue" and len(self):
+            self.jumped = getattr(self, "jumped", []) + [(role, len(self))]
+
 
 def gen(rng, tier, index):
     flavour = rng.choice(["serial", "tcp"])
@@ -100,7 +118,12 @@ def _vio(cls, detail, **sig):
 
 def run(case):
     cfg = case["cfg"]
-    world = W.World(cfg["flavour"], {"protocol_version": cfg["version"]}, sched=cfg["sched"], window=window, max_steps=300_000 if cfg["scenario"] != "F" else 2_000_000)
+    gw_opts = {"protocol_version": cfg["version"]}
+    if cfg["scenario"] == "F" and cfg["flavour"] == "tcp" and not cfg.get("slow_send"):
+        # the watchdog's version probe falls due (1.2 s after the connect) while the backlog is waiting behind the stalled
+        # write (which ends 1.6 s after it); it is answered well before the 2.4 s the watchdog allows
+        gw_opts["reconnect_timeout"] = 1.2
+    world = W.World(cfg["flavour"], gw_opts, sched=cfg["sched"], window=window, max_steps=300_000 if cfg["scenario"] != "F" else 2_000_000)
     sim = world.sim
     violations, probes = [], {}
     incomplete = None
@@ -378,6 +401,9 @@ def run(case):
                                            sign="fewer" if pres < len(held_calls) else "more"))
                 elif held_calls:
                     probes["withheld_commands_all_sent_once"] = 1
+            if getattr(rec, "jumped", None) and not violations:
+                violations.append(_vio("commands-out-of-queue-order", {"note": "a thread other than the pump put a command in front of commands queued earlier",
+                                                                      "who_and_queue_length": rec.jumped[:4]}, how="front-insertion"))
             if cfg["scenario"] in ("B", "S", "F") and not violations:
                 missing = [t for t in tags if seen[t] == 0]
                 if missing:
